@@ -161,6 +161,17 @@ def curated_classes():
         ('class', 'Cd', None, [('pass', ('str', 'c')), ('field', 'a', D), ('field', 'b', D), ('requires', 'a if b else 1'), ('requires', 'b or a'),
                                ('field', 'c', ('opt', ('str', '!'))), ('requires', 'a < 3 or c')]),
         ('class', 'Lm', None, [('pass', ('str', 'l')), ('field', 'a', D), ('requires', 'a != 1'), ('field', 'b', D), ('requires', 'not a or b'), ('requires', 'a + b != 5')])]))
+    # let members (and kept fields) of a class read inside an expression handed to a template: in inline
+    # Python, a where predicate, a count, a |> function
+    Wp = ('rule', 'Wp', ['p'], ('right', ('str', '('), ('left', ('ref', 'p'), ('str', ')'))))
+    out.append(('class-let-in-argument', [
+        ('rule', 'start', None, ('star', ('alt', [('ref', 'La'), ('ref', 'Lb'), ('ref', 'Lc')]))),
+        ('class', 'La', None, [('pass', ('str', 'x')), ('let', 'lf', T), ('field', 'a', ('call', 'Wp', [('where', T, ('py', 'lambda w: w != lf'))])),
+                               ('field', 'b', ('call', 'Wp', [('seq', [T, R(1, 'lf')])]))]),
+        ('class', 'Lb', None, [('pass', ('str', 'y')), ('let', 'n', D), ('field', 'kept', T), ('field', 'a', ('call', 'Wp', [('rep', ('str', 'a'), ('name', 'n'), ('name', 'n'))])),
+                               ('field', 'b', ('call', 'Wp', [('apply', T, ('py', 'lambda v: (v, kept, n)'))]))]),
+        ('class', 'Lc', None, [('pass', ('str', 'z')), ('let', 'type', T), ('field', 'a', ('call', 'Wp', [('where', T, ('py', 'lambda w: w == type'))]))]),
+        Wp]))
     # a requires condition is checked where it stands: before later members re-bind a name it mentions,
     # and before later inline Python that it guards
     out.append(('class-requires-position', [
@@ -232,6 +243,7 @@ EXTRA_INPUTS = {
     # every pair of digits behind every class letter (the requires conditions are decided by the pair)
     'class-requires-adjacent': [h + x + y + t for h in 'pcl' for x in '0123' for y in '0123' for t in ('', '!')] +
                                ['p00p01', 'c10!c00', 'l23l32', 'p01 ', '3p10'],
+    'class-let-in-argument': ['xa(b)(a)', 'xa(a)(b)', 'xb(a)(b)', 'y2a(aa)(b)', 'y0b()(a)', 'y1a(a)(a)', 'y1a(aa)(a)', 'za(a)', 'za(b)', 'xa(b)(a)y1b(a)(b)za(a)'],
     'class-requires-position': [h + x for h in 'rt' for x in '0123'] + ['s' + x + y for x in '0123' for y in '0123'] + ['r1r0', 's10s11', 't2t1', 's', 'r', 't0'],
 }
 
